@@ -397,6 +397,11 @@ CLAUSES = [
     ),
 ]
 
+from ..names_check import names_clause  # noqa: E402
+
+if names_clause("C15") is not None:
+    CLAUSES.append(names_clause("C15"))
+
 PROPERTY = Property(
     id="C15",
     level="exploration",
